@@ -334,7 +334,7 @@ def gen_case(rnd, abi, valid):
                     elif k == 3:
                         ds.append((".cfi_def_cfa", [reg(), rnd.randrange(0, 64)], "N"))
                         cfa_reg = True
-                    elif k == 4 and cfa_reg:
+                    elif k == 4 and (cfa_reg or rnd.random() < 0.3):   # sometimes ill-formed on purpose (CFA is an expression / undefined)
                         ds.append((rnd.choice((".cfi_def_cfa_offset", ".cfi_def_cfa_register", ".cfi_adjust_cfa_offset")), [rnd.randrange(0, 40)], "N"))
                     elif k == 5:
                         ds.append((".cfi_restore", [reg()], "N"))
